@@ -43,7 +43,10 @@ static int probe_other(struct emu *emu)
 void h_model_probe(void)
 {
 	static struct model model;
-	static struct model_spec specs[MAX_MODELS];
+	/* model_probe only reads spec->probe and spec->evspec->nevents (name and version go
+	 * to diagnostics): the observed slot has its own spec, the other registered slots
+	 * share two (one with a probe, one without) -- no array of 256 specs is needed */
+	static struct model_spec spec_k, spec_with_probe, spec_without_probe;
 	static struct model_evspec evspec;
 	static struct emu emu;
 	emu_hook_t *pk = probe_k, *po = probe_other;   /* candidate targets of spec->probe */
@@ -56,19 +59,22 @@ void h_model_probe(void)
 	g_err = nondet_int() & 0xfffff;
 	g_diag = g_err;
 	g_warn = 0;
+	spec_k.evspec = spec_with_probe.evspec = spec_without_probe.evspec = &evspec;
+	spec_k.probe = nondet_bool() ? NULL : pk;
+	spec_with_probe.probe = po;
+	spec_without_probe.probe = NULL;
 	for (int i = 0; i < MAX_MODELS; i++) {
 		int reg = nondet_bool();
 		model.registered[i] = reg;
 		model.enabled[i] = 0;                          /* model_init */
-		model.spec[i] = reg ? &specs[i] : NULL;        /* model_register */
-		specs[i].evspec = &evspec;
-		specs[i].probe = nondet_bool() ? NULL : (i == k ? pk : po);
+		/* model_register */
+		model.spec[i] = !reg ? NULL : i == k ? &spec_k : nondet_bool() ? &spec_with_probe : &spec_without_probe;
 	}
 	emu.args.enable_all_models = nondet_int();
 	evspec.nevents = nondet_long();
 
 	int registered_k = model.registered[k];
-	int has_probe_k = registered_k && specs[k].probe != NULL;
+	int has_probe_k = registered_k && spec_k.probe != NULL;
 	int enable_all = emu.args.enable_all_models;
 	unsigned err0 = g_err;
 
@@ -82,7 +88,7 @@ void h_model_probe(void)
 		"the probe of a registered model is consulted exactly once, of an unregistered one never");
 	VASSERT(r == 0 || g_err > err0, "a failure comes with a diagnostic");
 	/* frame, observed slot and arguments */
-	VASSERT(model.registered[k] == registered_k && model.spec[k] == (registered_k ? &specs[k] : NULL) &&
+	VASSERT(model.registered[k] == registered_k && model.spec[k] == (registered_k ? &spec_k : NULL) &&
 		emu.args.enable_all_models == enable_all, "model_probe changes neither registered[], spec[] nor emu->args");
 	VASSERT(model.enabled[k] == 0 || model.enabled[k] == 1, "enabled[k] is 0 or 1");
 
